@@ -67,6 +67,8 @@ STARTUPS = {
 SHUTDOWNS = {
     "complete": [("recv",), ("log_state",), ("send", DC)],
     "failed": [("recv",), ("send_strict", DF)],
+    "failed_nomsg": [("recv",), ("send_strict", {"type": "lifespan.shutdown.failed"})],
+    "failed_unwind": [("recv",), ("send_finally", DF, 0.5)],
     "raise": [("recv",), ("raise",)],
     "hang": [("recv",), ("gate", "never2")],
     "return": [("recv",), ("return",)],
